@@ -41,7 +41,9 @@ SPEC = dict(
                "password, digest or token; plus 'TLS unavailable => stream close, disconnected' for every reachable waiting state, "
                "'version-less header => give up' and 'IQ request before TLS => rejected' for every configuration. The two scripts that used to "
                "leak (fixed by e0bbad9 and fa0779c) are replayed first on the real client.",
-    level_note="Proved about the hand-written model; the model-to-code tie is differential (exhaustive to depth 3/4 over a reduced "
+    level_note="Also proved: an application that sends only while isConnected() (and connects only while disconnected) satisfies the scope "
+               "hypothesis automatically - with TLS required isConnected() implies an encrypted link; and a request sent on a connected "
+               "unencrypted link does go out in clear (the scope hypothesis cannot be dropped). Proved about the hand-written model; the model-to-code tie is differential (exhaustive to depth 3/4 over a reduced "
                "alphabet, random beyond) plus a byte-level oracle on the server side of a real TLS-capable loopback connection.",
     design_ref="5.4",
     technique="Lean 4 invariant proof over all event scripts + model/implementation correspondence against a scripted TLS server",
